@@ -8,7 +8,22 @@ ID = "C09"
 LEAN_MODULES = ["Properties.C09"]
 THEOREMS = ["EngineModel.Properties.C09." + t for t in [
     "C09_walk_lists_every_item_once_in_order",
+    "C09_listing_covers_exactly_the_rows",
     "C09_insert_simulates",
+    "C09_delete_playlist_simulates",
+    "C09_move_simulates",
+    "C09_add_back_simulates",
+    "C09_remove_entity_simulates",
+    "C09_clear_simulates",
+    "C09_step_simulates",
+    "C09_history_represented_partial",
+    "C09_history_wfChains_partial",
+    "C09_listings_equal_spec",
+    "C09_history_listings_equal_spec_partial",
+    "C09_step_changes_as_prescribed",
+    "C09_history_listings_change_as_prescribed_partial",
+    "C09_add_back_identity_includes_database",
+    "C09_history_counterexample",
 ]]
 ASSUMPTIONS = [
     "SqliteSemantics: the hand translation of the SQL statements and of the Playlist / PlaylistEntity triggers into list "
@@ -17,6 +32,8 @@ ASSUMPTIONS = [
     "the UNIQUE (parentListId, nextListId) constraint is not modelled (it never fires on chain-well-formed states; a firing "
     "would show as a sqlite_error divergence in the tie)",
     "table-level playlist_entity_table histories use positive track ids (the schema's delete trigger is declared WHEN OLD.trackId > 0)",
+    "database uuids are modelled as integer tags (0 = the library's own uuid, k > 0 = a foreign database); the tie maps the "
+    "tags to fixed synthetic uuid strings, so only equality of uuids is modelled (which is all the code uses)",
 ]
 MANIFEST = dict(
     text="Lean theorems over a generic model of keyed singly-linked chains stored in a SQL table (INSERT under the "
